@@ -23,7 +23,8 @@ RULE = ('router: histories of add-rule / remove-rule / deliver-message on Messag
         'cancelSignalNotification with matching and mismatching signal signatures, optionally next to a second connection '
         'of the same process whose proxy holds and cancels subscriptions with the same rule ids. busrule: the rule text given to '
         'Bus.dbus_AddMatch and then matched by the bus router. Non-trivial = a near-miss on exactly one key, a '
-        'prefix-sharing sibling path, or a removal between two deliveries; distinct = distinct case JSON.')
+        'prefix-sharing sibling path, or a removal between two deliveries; distinct = distinct case JSON. Callbacks return None / True / '
+        'a string / 1 / False / a fired Deferred by turns: what a callback returns has no influence on the other rules.')
 ASSUMPTIONS = ['sender and arg0namespace are not in the statement and are never constrained',
                'rule values contain no apostrophe or comma (escaping is outside the statement)',
                'callbacks do not mutate the rule set while a message is being routed']
@@ -36,6 +37,14 @@ DESTS = [':1.5', 'org.verif.D', ':1.6']
 ARGVALS = ['x', 'y', '', '/a/', '/a/b', '/a/b/', '/a/bc', '/a', 'xy', '1', '2',     # '1', '2': the text of integer arguments
            'C:\\t\\new', 'col1\tcol2', 'k=v']     # backslashes, a tab, an equals sign: literal inside the quotes of a rule
 TYPES = ['signal', 'method_call', 'method_return', 'error']
+
+
+def _cb_result(idx):
+    from twisted.internet import defer
+    k = idx % 6
+    if k == 5:
+        return defer.succeed(idx)
+    return [None, True, 'handled', 1, False][k]
 
 
 class _Quit(BaseException):
@@ -123,8 +132,11 @@ def run_router(case):
                     hits.append(idx)
                     if r.get('raises'):
                         # user callbacks fail in every way Python offers, not only with Exception subclasses
-                        raise {1: RuntimeError, 2: _Quit, 3: SystemExit, 4: GeneratorExit}.get(int(r['raises']), RuntimeError)(
-                            'callback %d raises' % idx)
+                        raise {1: RuntimeError, 2: _Quit, 3: SystemExit, 4: GeneratorExit, 5: StopIteration}.get(
+                            int(r['raises']), RuntimeError)('callback %d raises' % idx)
+                    # what a callback RETURNS is nobody's business: truthy, falsy, a Deferred - delivery to the other
+                    # rules does not depend on it
+                    return _cb_result(idx)
                 active[idx] = rt.addMatch(cb, **_router_kwargs(r))
             elif op[0] == 'remove':
                 if active:
@@ -219,7 +231,7 @@ def rule(draw):
         r['arg_paths'] = [[idx, draw(st.sampled_from([v for v in ARGVALS if v]))]]
         if draw(st.integers(0, 4)) == 0:
             r['arg_paths'].append([[i for i in (4, 5, 6) if i not in used][0], draw(st.sampled_from([v for v in ARGVALS if v]))])
-    r['raises'] = draw(st.sampled_from([0, 0, 0, 0, 0, 0, 1, 1, 2, 3, 4]))
+    r['raises'] = draw(st.sampled_from([0, 0, 0, 0, 0, 0, 1, 1, 2, 3, 4, 5]))
     return r
 
 
@@ -362,6 +374,7 @@ def run_client(case):
 
                 def cb(m, idx=idx):
                     hits.append(idx)
+                    return _cb_result(idx + 1)
                 kw = _router_kwargs(r)
                 d = rig.conn.addMatch(cb, mtype=kw['mtype'], interface=kw['interface'], member=kw['member'],
                                       path=kw['path'], path_namespace=kw['path_namespace'],
